@@ -9,7 +9,7 @@
    Uuid::new_v4() (data files, index directories, transaction files) and rand::rng().random::<u64>() (the id in
    `_deletions/<fragment>-<read_version>-<id>`, lance-table/src/io/deletion.rs write_deletion_file).  It is
    necessary: see C06_name_collision_refuted. *)
-From LanceV Require Import Common.Base Store.Model_History Store.Proofs_History.
+From LanceV Require Import Common.Base Store.Model_History Store.Proofs_History Store.Model_Cache Store.Proofs_Cache.
 Local Open Scope N_scope.
 
 Definition published (here : root) (v : N) (s : store) : Prop := exists m, get s (here, RManifest v) = Some (CMan m).
@@ -67,6 +67,35 @@ Proof.
   - vm_compute. discriminate.
 Qed.
 Print Assumptions C06_name_collision_refuted.
+
+(* ---------- old versions read THROUGH A SESSION (the e2e arm "shared session") ----------
+   The store-level theorem above is what a fresh session sees.  A session answers some reads from its caches
+   (Store/Model_Cache.v); that is the store's answer for every eviction behaviour outside the two key-collision
+   classes of C38, and not inside: B2. *)
+Definition Known_C06_shared_session_fragment_keyed_cache := Known_C38_fragment_keyed_cache_across_overwrite.
+
+Theorem C06_through_session_cache : forall (oracle : store -> N), (forall s, unused (oracle s) s) ->
+  forall (etag : manifest -> N) tr s outs,
+  no_cleanup tr = true -> Known_C38_version_keyed_cache_across_recreate tr = false ->
+  Known_C06_shared_session_fragment_keyed_cache oracle etag s tr = false ->
+  exec ckey_eqb [] (requests oracle etag s tr) outs ->
+  outs = map (fun r => snd (snd r)) (requests oracle etag s tr).
+Proof. intros oracle Hf etag tr s outs NC ND NO E. eapply session_transparent; eassumption. Qed.
+Print Assumptions C06_through_session_cache.
+
+(* B2: create (fragment 0 = sequence 10); overwrite (fragment 0 = sequence 20); the session reads the new version's
+   fragment 0, then checks out version 1 and reads ITS fragment 0: answered 20, the store holds 10 *)
+Theorem C06_shared_session_fragment_keyed_cache_refuted :
+  let tr := [(1, ECreate [10; 11] 5); (1, EOp (OOverwrite [20] 6)); (1, ERead false (QRowIdSeq 2 0)); (1, ERead false (QRowIdSeq 1 0))] in
+  no_cleanup tr = true /\ Known_C38_version_keyed_cache_across_recreate tr = false /\
+  Known_C06_shared_session_fragment_keyed_cache oracle_max etag0 [] tr = true /\
+  exists outs, exec ckey_eqb [] (requests oracle_max etag0 [] tr) outs /\
+    outs = [VSeq 20; VSeq 20] /\ map (fun r => snd (snd r)) (requests oracle_max etag0 [] tr) = [VSeq 20; VSeq 10].
+Proof.
+  cbv zeta. split; [reflexivity|]. split; [reflexivity|]. split; [vm_compute; reflexivity|].
+  eexists. split; [apply run_cache_exec|]. split; vm_compute; reflexivity.
+Qed.
+Print Assumptions C06_shared_session_fragment_keyed_cache_refuted.
 
 (* non-vacuity: a concrete history under the fresh oracle; version 1 (two fragments, later deleted from, compacted,
    indexed, overwritten, restored, tagged, and surviving a cleanup of versions 2, 3 and 4 that removes the deletion
